@@ -208,6 +208,13 @@ func (r *Run) knownNil(path *Path, rfn *Func, x ast.Expr) (isNil, known bool) {
 			if res, rfn2, ok := r.P.inlinedResults(rfn, call); ok && len(res) >= 1 {
 				return r.knownNil(path, rfn2, res[len(res)-1])
 			}
+			// a freshly built error: errors.New(...)[.Wrap(...).WithTag(...)…], fmt.Errorf(...)
+			if isFreshError(info, call) {
+				return false, true
+			}
+		}
+		if u, isU := ast.Unparen(x).(*ast.UnaryExpr); isU && u.Op == token.AND {
+			return false, true // address of something
 		}
 		return false, false
 	}
@@ -650,6 +657,33 @@ func (r *Run) assignedBetween(path *Path, from, to int, subject string) bool {
 				}
 			}
 		}
+	}
+	return false
+}
+
+// isFreshError: the call builds a new error value — errors.New / errors.Newf / fmt.Errorf, possibly
+// followed by a chain of builder methods on the result (Wrap, WithTag, WithType …).
+func isFreshError(info *types.Info, call *ast.CallExpr) bool {
+	for depth := 0; depth < 8; depth++ {
+		f, _ := calleeObj(info, call).(*types.Func)
+		if f == nil {
+			return false
+		}
+		if f.Pkg() != nil && (f.Name() == "New" || f.Name() == "Newf" || f.Name() == "Errorf") {
+			pp := f.Pkg().Path()
+			if pp == "errors" || pp == "fmt" || strings.HasSuffix(pp, "/errors") {
+				return true
+			}
+		}
+		se, ok := ast.Unparen(call.Fun).(*ast.SelectorExpr)
+		if !ok {
+			return false
+		}
+		inner, ok := ast.Unparen(se.X).(*ast.CallExpr)
+		if !ok {
+			return false
+		}
+		call = inner
 	}
 	return false
 }
